@@ -95,6 +95,10 @@ class Engine:
         :param product: product to price
         """
         mc_paths = self.configuration.mc_paths
+        nb_of_processes = self.configuration.nb_of_processes
+        if nb_of_processes == 1:
+            # seed before anything is drawn: the initialisation pre-draws the Brownian increments and the jump counts
+            self.configuration.initialisation_seed()
         self.initialisation(mc_paths, product)
 
         # Deterministic rates
@@ -108,12 +112,10 @@ class Engine:
         statistics = self.statistics
         simulate_one_path = self.process.simulate_one_path
         cv = self.configuration.control_variates
-        nb_of_processes = self.configuration.nb_of_processes
 
         # Monte-Carlo loop
         if nb_of_processes == 1:
             # single process version
-            self.configuration.initialisation_seed()
             for iteration in range(mc_paths):
                 simulated_path = simulate_one_path()
                 # process the path: compute the payoff and discount it
